@@ -23,6 +23,16 @@ def neutron_atoms():
     return sorted(set(keys)), sorted(set(edep))
 
 
+def raw_has_data():
+    """(z, a) -> True for the atoms that have neutron data according to the raw tables: a scattering length (own row, or
+    the single isotope's row for an element without one) and a density for the element (the number density the
+    calculators need)."""
+    keys, _ = neutron_atoms()
+    eb = rawtables.element_base()
+    dens = rawtables.const("density", "element_densities")
+    return dict(((z, a), dens.get(eb[z][1]) is not None) for z, a in keys)
+
+
 def header():
     c = rawtables.module_constants("constants")
     D = lambda x: Decimal(repr(x))
